@@ -4,6 +4,7 @@ an admissible abstract state, and everything keeps working (`Lemmas/CrashRefine.
 -/
 import Cacache.Lemmas.CrashRefine
 import Cacache.Lemmas.FaultStrict
+import Cacache.Lemmas.FaultMore
 
 namespace Cacache.C13x
 open Prog CacheRefine CrashRefine
@@ -88,5 +89,113 @@ theorem delete_ok_clock (cfg : Cfg) (cache : Path) (key : Bytes) (env : Env)
     runFault env plan (delete cfg cache key) fs i =
       run { env with clock := 0 } (delete cfg cache key) fs :=
   FaultStrict.delete_ok_clock cfg cache key env plan fs i h
+
+/-! ### the remaining operations under EVERY fault plan (Lemmas/FaultMore)
+
+`copy*`, `hard_link*`, `reflink*` (checked), `list`, `remove_fully` and `clear` - the operations of
+the property's quantifier that the theorems above do not cover.  Model limits to keep in mind when
+reading them: a failing `copyFile` / `hardLink` / `reflink` has no partial effect in the model (a real
+failing `fs::copy` may leave a created or partly written destination; what carries over is the error
+answer plus the cache frame), and a copy writes THROUGH a symlinked destination (hence `destTargets`). -/
+
+open FaultMore ListRefine Refine in
+/-- **Checked extraction by address, any fault plan**: an error answer means the filesystem is exactly
+as before; a success answer `n` means the content file held bytes `b` of length `n` that PASS the
+integrity check and the destination holds exactly `b` (never unverified bytes with a success); and
+nothing but the destination ever changes - the content and index areas in particular. -/
+theorem extractHash_fault (how : Extract) (sri : Integrity) (dest : Path) (env : Env)
+    (plan : Nat → Option Fault) (fs : FS) (i : Nat) :
+    ExtractPost cfg how cache sri dest fs
+      (runFault env plan (extractHash cfg how cache sri dest) fs i).1
+      (runFault env plan (extractHash cfg how cache sri dest) fs i).2.1 :=
+  FaultMore.extractHash_fault cfg how cache sri dest env plan fs i
+
+open FaultMore ListRefine Refine in
+/-- The same by key (the entry is the one a healthy lookup of the key finds). -/
+theorem extract_fault (how : Extract) (key : Bytes) (dest : Path) (env : Env)
+    (plan : Nat → Option Fault) (fs : FS) (i : Nat) :
+    (∀ e, (runFault env plan (extract cfg true how cache key dest) fs i).1 = .error e →
+      (runFault env plan (extract cfg true how cache key dest) fs i).2.1 = fs) ∧
+    (∀ n, (runFault env plan (extract cfg true how cache key dest) fs i).1 = .ok n →
+      ∃ m cpath b, (run env (find cfg cache key) fs).1 = .ok (some m) ∧
+        contentPath cache m.sri = some cpath ∧ fs.readFile cpath = .ok b ∧ b.length = n ∧
+        C01.Passes cfg m.sri b ∧
+        DestHolds fs (runFault env plan (extract cfg true how cache key dest) fs i).2.1 dest b) ∧
+    (∀ q, q ∉ destTargets how fs dest →
+      (runFault env plan (extract cfg true how cache key dest) fs i).2.1.get q = fs.get q) :=
+  FaultMore.extract_fault cfg how cache key dest env plan fs i
+
+open FaultMore ListRefine Refine in
+/-- **A listing under any fault plan is read-only and invents nothing**: the filesystem is unchanged,
+the listed entries are a sublist of the healthy listing's, and on a healthy tidy cache every listed
+entry is what a lookup of its key finds; keys are listed at most once. -/
+theorem ls_fault_genuine (env : Env) (plan : Nat → Option Fault) (fs : FS) (i : Nat)
+    (hH : Healthy cfg cache fs) (hT : Tidy cfg cache fs) :
+    (runFault env plan (ls cfg cache) fs i).2.1 = fs ∧
+    (entriesOf (runFault env plan (ls cfg cache) fs i).1).Sublist
+      (entriesOf (run env (ls cfg cache) fs).1) ∧
+    (∀ m, LsItem.entry m ∈ (runFault env plan (ls cfg cache) fs i).1 →
+      absIndex cfg cache fs m.key = some m ∧ (run env (find cfg cache m.key) fs).1 = .ok (some m)) ∧
+    ((entriesOf (runFault env plan (ls cfg cache) fs i).1).map (fun m => m.key)).Nodup :=
+  ⟨FaultMore.ls_fault_readonly cfg cache env plan fs i, FaultMore.ls_fault_sublist cfg cache env plan fs i,
+   FaultMore.ls_fault_genuine cfg cache env plan fs i hH hT⟩
+
+open FaultMore ListRefine Refine in
+/-- **Full removal, any fault plan, truthful success**: `ok` means the bucket is gone and every later
+lookup of the key - healthy or itself faulty - never finds an entry.  No hypothesis on the filesystem. -/
+theorem removeFully_ok_absent (key : Bytes) (env : Env) (plan : Nat → Option Fault) (fs : FS) (i : Nat)
+    (h : (runFault env plan (removeFully cfg cache key) fs i).1 = .ok ()) :
+    (runFault env plan (removeFully cfg cache key) fs i).2.1.get (bucketPath cfg cache key) = none ∧
+    (∀ env', (run env' (find cfg cache key) (runFault env plan (removeFully cfg cache key) fs i).2.1).1 =
+      .ok none) ∧
+    (∀ env' plan' j m, (runFault env' plan' (find cfg cache key)
+      (runFault env plan (removeFully cfg cache key) fs i).2.1 j).1 ≠ .ok (some m)) :=
+  FaultMore.removeFully_ok_absent cfg cache key env plan fs i h
+
+open FaultMore ListRefine Refine in
+/-- **Full removal, any fault plan, other entries unaffected**: the cache stays healthy; keys in other
+bucket files look up as before; on an error EVERY key looks up as before. -/
+theorem removeFully_fault_healthy (key : Bytes) (env : Env) (plan : Nat → Option Fault) (fs : FS)
+    (i : Nat) (hH : Healthy cfg cache fs) :
+    Healthy cfg cache (runFault env plan (removeFully cfg cache key) fs i).2.1 ∧
+    (∀ k, ¬ SameBucket cfg k key → ∀ env',
+      (run env' (find cfg cache k) (runFault env plan (removeFully cfg cache key) fs i).2.1).1 =
+        (run env' (find cfg cache k) fs).1) ∧
+    (∀ e, (runFault env plan (removeFully cfg cache key) fs i).1 = .error e → ∀ k env',
+      (run env' (find cfg cache k) (runFault env plan (removeFully cfg cache key) fs i).2.1).1 =
+        (run env' (find cfg cache k) fs).1) ∧
+    ((runFault env plan (removeFully cfg cache key) fs i).1 = .ok () → ∀ k, SameBucket cfg k key →
+      ∀ env', (run env' (find cfg cache k) (runFault env plan (removeFully cfg cache key) fs i).2.1).1 =
+        .ok none) :=
+  FaultMore.removeFully_fault_healthy cfg cache key env plan fs i hH
+
+open FaultMore ListRefine Refine in
+/-- **`clear` for EVERY order in which the directory's children come back, any fault plan** (`σ` is any
+permutation of what `read_dir` answers; the plan covers the `read_dir` call and the partial removals
+of a failing `remove_dir_all`): what remains is a sub-filesystem (nothing created or altered), nothing
+outside the cache directory changes, the cache stays healthy, and on a tidy cache an `ok` answer means
+everything below the cache directory is gone - path by path the state the healthy `clear` leaves. -/
+theorem clear_any_order_fault (σ : List (Path × Bool) → List (Path × Bool)) (hσ : ∀ es, (σ es).Perm es)
+    (env : Env) (plan : Nat → Option Fault) (fs : FS) (i : Nat) (hH : Healthy cfg cache fs) :
+    SubFS fs (runFault env plan (clearIn σ cache) fs i).2.1 ∧
+    (∀ q, (¬ cache <+: q ∨ q = cache) → (runFault env plan (clearIn σ cache) fs i).2.1.get q = fs.get q) ∧
+    Healthy cfg cache (runFault env plan (clearIn σ cache) fs i).2.1 ∧
+    (Tidy cfg cache fs → (runFault env plan (clearIn σ cache) fs i).1 = .ok () →
+      fs.isDir cache = true ∧
+      (∀ q, cache <+: q → q ≠ cache → (runFault env plan (clearIn σ cache) fs i).2.1.get q = none) ∧
+      (∀ q, (runFault env plan (clearIn σ cache) fs i).2.1.get q = (run env (clear cache) fs).2.1.get q) ∧
+      (runFault env plan (clearIn σ cache) fs i).2.1.isDir cache = true ∧
+      Tidy cfg cache (runFault env plan (clearIn σ cache) fs i).2.1 ∧
+      absCache cfg cache (runFault env plan (clearIn σ cache) fs i).2.1 = AbsCache.empty) :=
+  FaultMore.clearIn_fault cfg cache σ hσ env plan fs i hH
+
+open FaultMore ListRefine Refine in
+/-- The quantifier's "in pairs", literally: any two calls of an extraction failing with any errors. -/
+theorem extractHash_pairs (how : Extract) (sri : Integrity) (dest : Path) (env : Env) (fs : FS)
+    (a b : Nat) (f g : Fault) :
+    ExtractPost cfg how cache sri dest fs
+      (runFault env (pairPlan a b f g) (extractHash cfg how cache sri dest) fs 0).1
+      (runFault env (pairPlan a b f g) (extractHash cfg how cache sri dest) fs 0).2.1 :=
+  FaultMore.extractHash_pairs cfg cache how sri dest env fs a b f g
 
 end Cacache.C13x
